@@ -332,11 +332,16 @@ func checkCLITarget(c *Ctx, r *Report) {
 	}
 	checkCLINameInfo(c, r, dp)
 	var create *ssa.Call
-	forEachInstr(dp, func(in ssa.Instruction) {
-		if call, ok := in.(*ssa.Call); ok && calleeIs(call, "os", "", "Create") {
-			create = call
+	for _, fn := range sortedFuncs(c, c.Reach(dp)) {
+		if !strings.HasPrefix(c.funcPkgPath(fn), modPath+"/internal/cmd") {
+			continue
 		}
-	})
+		forEachInstr(fn, func(in ssa.Instruction) {
+			if call, ok := in.(*ssa.Call); ok && calleeIs(call, "os", "", "Create") {
+				create = call
+			}
+		})
+	}
 	if create == nil {
 		r.Unresolved("doPackage: os.Create", "not found")
 		return
@@ -378,7 +383,7 @@ func checkCLITarget(c *Ctx, r *Report) {
 		}
 		return v
 	}
-	var phi ssa.Value = create.Call.Args[0]
+	var phi ssa.Value = up(create.Call.Args[0])
 	switch phi.(type) {
 	case *ssa.Phi, *ssa.Call:
 	default:
@@ -468,7 +473,7 @@ func checkCLITarget(c *Ctx, r *Report) {
 	r.Check(okStat, "CLI-target", "doPackage: directory test is os.Stat(target).IsDir()", c.pos(dp.Pos()), "an existing directory — also one reached through a symbolic link — must be recognised: the test must use os.Stat on the given target")
 	// info.Target gets the same value
 	okTarget := false
-	forEachInstr(dp, func(in ssa.Instruction) {
+	forEachInstr(create.Parent(), func(in ssa.Instruction) {
 		st, ok := in.(*ssa.Store)
 		if !ok {
 			return
